@@ -415,6 +415,31 @@ func genCliFaultEnum(seed uint64, prop string) *Scenario {
 func genCliFault(seed uint64, prop string) *Scenario {
 	r := rand.New(rand.NewPCG(seed, 0x636c6d))
 	sc := cliFaultScenario(seed, "clifault", r.IntN(2), r.IntN(12), r.IntN(5), []int{0, 1, 3, 6, 12, 30}[r.IntN(6)], r.IntN(2), r)
+	if r.IntN(4) == 0 {
+		// a backlog: requests are queued BEFORE sending is started (more of them than the request channel holds),
+		// so that the stream fails while StartSending is still writing the buffered requests out
+		var steps []Step
+		var start *Step
+		g0 := newGen(seed, 0x636c6f, &sc.Cfg)
+		for i := range sc.Steps {
+			st := sc.Steps[i]
+			if st.T == "start" && start == nil {
+				start = &sc.Steps[i]
+				continue
+			}
+			if start != nil && (st.T == "burst" || st.T == "await") {
+				for k := 0; k < 3+r.IntN(12); k++ {
+					q := g0.batchStep(0, cliOps(g0, 1+g0.pick(2)))
+					q.T = "q"
+					steps = append(steps, q)
+				}
+				steps = append(steps, *start)
+				start = nil
+			}
+			steps = append(steps, st)
+		}
+		sc.Steps = steps
+	}
 	n := len(sc.Steps)
 	if r.IntN(2) == 0 || n < 2 || sc.Steps[n-1].T != "close" || sc.Steps[n-2].T != "await" {
 		return sc
@@ -660,7 +685,7 @@ func runCli(e *env) {
 				connect()
 				first = false
 			}
-			cr.c.StartSending()
+			cr.timed("StartSending", func() { cr.c.StartSending() })
 		case "q":
 			ops := st.ops()
 			if len(ops) == 0 {
